@@ -91,16 +91,103 @@ class GlobalPatch:
             setattr(random, n, f)
 
 
-def mk_dist(d):
+def dec_label(x):
+    if isinstance(x, dict) and "tuple" in x:
+        return tuple(dec_label(y) for y in x["tuple"])
+    return x
+
+
+class Labels:
+    """id <-> label maps (ids are what the model uses; labels are what msdm sees)"""
+    def __init__(self, case):
+        lab = (case.get("opts") or {}).get("labels")
+        n, nA = case["mdp"]["n"], case["mdp"]["nA"]
+        self.S = [dec_label(x) for x in lab["states"]] if lab else list(range(n))
+        self.A = [dec_label(x) for x in lab["actions"]] if lab else list(range(nA))
+        self.Sid = {l: i for i, l in enumerate(self.S)}
+        self.Aid = {l: i for i, l in enumerate(self.A)}
+        assert len(self.Sid) == n and len(self.Aid) == nA
+
+    def s(self, i):
+        return None if i is None else self.S[i]
+
+    def sid(self, l):
+        return None if l is None else self.Sid[l]
+
+    def aid(self, l):
+        return None if l is None else self.Aid[l]
+
+
+def mk_dist(d, lab=None):
     from msdm.core.distributions import DictDistribution
     from msdm.core.distributions.dictdistribution import UniformDistribution, DeterministicDistribution
+    L = (lambda x: lab[x]) if lab is not None else (lambda x: x)
     if d["t"] == "dict":
-        return DictDistribution({x: fl(p) for x, p in d["items"]})
+        return DictDistribution({L(x): fl(p) for x, p in d["items"]})
     if d["t"] == "unif":
-        return UniformDistribution(tuple(d["items"]) if d.get("tuple") else list(d["items"]))
+        return UniformDistribution(tuple(L(x) for x in d["items"]) if d.get("tuple") else [L(x) for x in d["items"]])
     if d["t"] == "det":
-        return DeterministicDistribution(d["x"])
+        return DeterministicDistribution(L(d["x"]))
     raise ValueError(d)
+
+
+def build_mdp14(case, m=None, lab=None):
+    """the MDP of a C14 case through one of the public constructors, with the case's labels:
+    repr 'quick' = QuickTabularMDP from functions/DictDistributions (zero entries kept, given order),
+    repr 'matrices' = TabularMarkovDecisionProcess.from_matrices (dense arrays)"""
+    import numpy as np
+    from msdm.core.mdp.quickmdp import QuickTabularMDP
+    from msdm.core.mdp.tabularmdp import TabularMarkovDecisionProcess
+    from msdm.core.distributions import DictDistribution
+    opts = case.get("opts") or {}
+    m = m or case["mdp"]
+    lab = lab or Labels(case)
+    n, nA = m["n"], m["nA"]
+    gamma = fl(m["gamma"])
+    if opts.get("gamma_int"):
+        gamma = int(Fraction(m["gamma"]))
+    if opts.get("repr") == "matrices":
+        P = np.zeros((n, nA, n)); R = np.zeros((n, nA, n)); AM = np.zeros((n, nA))
+        for k, row in m["trans"].items():
+            s, a = map(int, k.split(","))
+            AM[s, a] = 1
+            for ns, p in row:
+                P[s, a, ns] = fl(p)
+        for k, r in m["reward"].items():
+            s, a, ns = map(int, k.split(","))
+            if P[s, a, ns] != 0:
+                R[s, a, ns] = fl(r)
+        ini = np.zeros(n)
+        for s, p in m["init"]:
+            ini[s] = fl(p)
+        mdp = TabularMarkovDecisionProcess.from_matrices(
+            state_list=tuple(lab.S), action_list=tuple(lab.A), initial_state_vec=ini, transition_matrix=P,
+            action_matrix=AM, reward_matrix=R, absorbing_state_vec=np.array(m["absorbing"], dtype=bool),
+            discount_rate=gamma)
+    else:
+        trans = {}
+        for k, row in m["trans"].items():
+            s, a = map(int, k.split(","))
+            trans[(lab.S[s], lab.A[a])] = DictDistribution({lab.S[ns]: fl(p) for ns, p in row})
+        rew = {}
+        for k, r in m["reward"].items():
+            s, a, ns = map(int, k.split(","))
+            rew[(lab.S[s], lab.A[a], lab.S[ns])] = fl(r)
+        actions = {lab.S[s]: tuple(lab.A[a] for a in acts) for s, acts in enumerate(m["actions"])}
+        absorbing = {lab.S[s]: bool(x) for s, x in enumerate(m["absorbing"])}
+        init = DictDistribution({lab.S[s]: fl(p) for s, p in m["init"]})
+        mdp = QuickTabularMDP(
+            next_state_dist=lambda s, a: trans[(s, a)],
+            reward=lambda s, a, ns: rew.get((s, a, ns), 0.0),
+            actions=lambda s: actions[s],
+            initial_state_dist=init,
+            is_absorbing=lambda s: absorbing[s],
+            discount_rate=gamma)
+    if opts.get("touch"):
+        # the object has been USED before the roll-out: cached views are filled
+        mdp.state_list, mdp.action_list, mdp.transition_matrix, mdp.reward_matrix
+        mdp.absorbing_state_vec, mdp.initial_state_vec, mdp.reachable_states()
+    return mdp
 
 
 def mk_policy(case, mdp):
@@ -108,13 +195,14 @@ def mk_policy(case, mdp):
     from msdm.core.mdp.tabularpolicy import TabularPolicy
     import numpy as np
     p = case["policy"]
+    lab = Labels(case)
     if p["kind"] == "functional":
-        tbl = [mk_dist(d) for d in p["dists"]]
+        tbl = {lab.S[s]: mk_dist(d, lab.A) for s, d in enumerate(p["dists"])}
         return FunctionalPolicy(lambda s: tbl[s])
     if p["kind"] == "tabular":
         n, nA = case["mdp"]["n"], case["mdp"]["nA"]
         data = np.array([[fl(x) for x in row] for row in p["matrix"]], dtype=float).reshape((n, nA))
-        return TabularPolicy.from_state_action_lists(state_list=tuple(range(n)), action_list=tuple(range(nA)), data=data)
+        return TabularPolicy.from_state_action_lists(state_list=tuple(lab.S), action_list=tuple(lab.A), data=data)
     raise ValueError(p["kind"])
 
 
@@ -129,50 +217,111 @@ def guard_absorbing(mdp, limit):
             raise StepGuard()
         return orig(s)
     mdp._is_absorbing = f
-    return cnt
+    return cnt, orig
 
 
 def cap_of(case):
     return int(2 ** 30) if case["cap"] == "large" else int(case["cap"])
 
 
-def traj_json(res):
+def container_probe(res, lab):
+    """the remaining SimulationResult / Step entry points (msdm/core/mdp/policy.py:123-178), as booleans"""
+    import warnings
+    steps = list(res.steps)
+    ok = {}
+    ok["getitem_int"] = res[0] is steps[0] and res[-1] is steps[-1]
+    ok["getitem_slice"] = res[:-1] == steps[:-1] and res[1:] == steps[1:]
+    ok["getitem_col"] = res[:, "state"] == [st["state"] for st in steps] and res[[slice(None, -1), "action"]] == [st["action"] for st in steps[:-1]]
+    ok["getitem_cols"] = res[:-1, ("state", "reward")] == [{"state": st["state"], "reward": st["reward"]} for st in steps[:-1]]
+    try:
+        res["state"]
+        ok["getitem_invalid_raises"] = False
+    except ValueError:
+        ok["getitem_invalid_raises"] = True
+    try:
+        res[0, "state", 1]
+        ok["getitem_3d_raises"] = False
+    except AssertionError:
+        ok["getitem_3d_raises"] = True
+    ok["iter"] = [st for st in res] == steps
+    ok["eq_self"] = (res == res) is True
+    ok["step_attr"] = steps[0].state == steps[0]["state"] and steps[-1].action is None and steps[0].no_such_field is None
+    ok["step_repr"] = repr(steps[-1]) == "Step(state=%s)" % (steps[-1]["state"],)
+    with warnings.catch_warnings():
+        warnings.simplefilter("ignore")
+        ok["deprecated_trajs"] = (res.state_traj == tuple(res.state[:-1]) and res.action_traj == tuple(res.action[:-1])
+                                  and res.reward_traj == tuple(res.reward[:-1]))
+    return ok
+
+
+def traj_json(res, lab):
     steps = list(res.steps)
     out = []
     for st in steps[:-1]:
-        out.append([int(st["state"]), int(st["action"]), int(st["next_state"]), fj(st["reward"]), st.get("timestep")])
+        out.append([lab.sid(st["state"]), lab.aid(st["action"]), lab.sid(st["next_state"]), fj(st["reward"]), st.get("timestep")])
     last = steps[-1]
-    return {"steps": out, "final": int(last["state"]), "final_keys": sorted(last.keys()),
-            "acc_state": [None if x is None else int(x) for x in res.state],
-            "acc_action": [None if x is None else int(x) for x in res.action],
-            "acc_next_state": [None if x is None else int(x) for x in res.next_state],
-            "acc_reward": [fj(x) for x in res.reward], "len": len(res)}
+    return {"steps": out, "final": lab.sid(last["state"]), "final_keys": sorted(last.keys()),
+            "acc_state": [lab.sid(x) for x in res.state],
+            "acc_action": [lab.aid(x) for x in res.action],
+            "acc_next_state": [lab.sid(x) for x in res.next_state],
+            "acc_reward": [fj(x) for x in res.reward], "len": len(res), "container": container_probe(res, lab)}
 
 
-def one_mdp_run(case):
-    mdp = build_mdp(case["mdp"])
-    pol = mk_policy(case, mdp)
+def run_once(pol, mdp, lab, case, run):
+    """one roll-out; `run` holds s0 / cap / stream / gstream / use_global"""
     guard = guard_absorbing(mdp, int(case.get("step_guard", 400)))
-    rng, g = Scripted(case["stream"], "rng"), Scripted(case["gstream"], "global")
+    rng, g = Scripted(run["stream"], "rng"), Scripted(run["gstream"], "global")
     kw = {}
-    if case["cap"] != "default":
-        kw["max_steps"] = cap_of(case)
+    if run["cap"] != "default":
+        kw["max_steps"] = cap_of(run)
+    if not run.get("use_global"):
+        kw["rng"] = rng            # else: the default generator (module `random`), here the scripted global one
+    if run["s0"] is not None or not run.get("omit_s0"):
+        kw["initial_state"] = lab.s(run["s0"])
     try:
         with GlobalPatch(g):
-            res = pol.run_on(mdp, initial_state=case["s0"], rng=rng, **kw)
+            res = pol.run_on(mdp, **kw)
     except StreamExhausted as e:
         return {"skipped": "stream exhausted (%s)" % e}
     except StepGuard:
         return {"skipped": "step guard"}
-    out = traj_json(res)
+    finally:
+        mdp._is_absorbing = guard[1]
+    out = traj_json(res, lab)
     out["rng"], out["global"] = rng.summary(), g.summary()
+    return out
+
+
+def one_mdp_run(case):
+    lab = Labels(case)
+    mdp = build_mdp14(case, lab=lab)
+    pol = mk_policy(case, mdp)
+    out = run_once(pol, mdp, lab, case, case)
+    sec = case.get("second")
+    if sec and "skipped" not in out:
+        # the SAME policy object again: on the same MDP object, or on a second MDP with the same labels
+        mdp2 = mdp if sec.get("mdp") is None else build_mdp14(case, m=sec["mdp"], lab=lab)
+        out["second"] = run_once(pol, mdp2, lab, case, sec)
     return out
 
 
 def one_mdp_eval(case):
     from msdm.core.mdp.policy import Policy     # TabularPolicy overrides evaluate_on with the exact evaluator
-    mdp = build_mdp(case["mdp"])
+    lab = Labels(case)
+    mdp = build_mdp14(case, lab=lab)
     pol = mk_policy(case, mdp)
+    opts = case.get("opts") or {}
+    if opts.get("warmup"):
+        # the policy and MDP objects have been used for a roll-out and an evaluation before
+        w = guard_absorbing(mdp, 60)
+        try:
+            with GlobalPatch(Scripted(case["gstream"], "global")):
+                pol.run_on(mdp, max_steps=3, rng=Scripted(opts["warmup"], "warm"))
+                Policy.evaluate_on(pol, mdp, n_simulations=1, max_steps=2, rng=Scripted(opts["warmup"], "warm"))
+        except (StreamExhausted, StepGuard):
+            pass
+        finally:
+            mdp._is_absorbing = w[1]
     guard = guard_absorbing(mdp, int(case.get("step_guard_total", 400)))
     rng, g = Scripted(case["stream"], "rng"), Scripted(case["gstream"], "global")
     recs = []
@@ -197,15 +346,13 @@ def one_mdp_eval(case):
     av_sl, av_al = list(ev.action_value.state_list), list(ev.action_value.action_list)
     occ_sl = list(ev.state_occupancy.state_list)
 
-    def key(a):
-        return None if a is None else int(a)
     out = {
-        "state_value": [[int(s), fj(ev.state_value[s])] for s in sl],
-        "action_value": [[int(s), key(a), fj(ev.action_value[s][a])] for s in av_sl for a in av_al],
-        "occupancy": [[int(s), fj(ev.state_occupancy[s])] for s in occ_sl],
+        "state_value": [[lab.sid(s), fj(ev.state_value[s])] for s in sl],
+        "action_value": [[lab.sid(s), lab.aid(a), fj(ev.action_value[s][a])] for s in av_sl for a in av_al],
+        "occupancy": [[lab.sid(s), fj(ev.state_occupancy[s])] for s in occ_sl],
         "initial_value": fj(ev.initial_value),
         "n_simulations": ev.n_simulations,
-        "rollouts": [traj_json(r) for r in recs],
+        "rollouts": [traj_json(r, lab) for r in recs],
         "rng": rng.summary(), "global": g.summary(),
     }
     return out
@@ -213,10 +360,18 @@ def one_mdp_eval(case):
 
 def one_returns(case):
     from msdm.core.mdp.policy import Policy
-    rets = Policy.calc_returns([fl(r) for r in case["rewards"]], fl(case["gamma"]))
-    rets_int = Policy.calc_returns([int(Fraction(r)) if Fraction(r).denominator == 1 else fl(r) for r in case["rewards"]],
-                                   fl(case["gamma"]))
-    return {"returns": [fj(x) for x in rets], "returns_intlist": [fj(x) for x in rets_int]}
+    import numpy as np
+    g = fl(case["gamma"])
+    if case.get("gamma_int"):
+        g = int(Fraction(case["gamma"]))          # discount_rate = 1 / 0 written as an int
+    rs = [fl(r) for r in case["rewards"]]
+    rets = Policy.calc_returns(rs, g)
+    rets_int = Policy.calc_returns([int(Fraction(r)) if Fraction(r).denominator == 1 else fl(r) for r in case["rewards"]], g)
+    out = {"returns": [fj(x) for x in rets], "returns_intlist": [fj(x) for x in rets_int]}
+    if not case.get("long"):
+        out["returns_tuple"] = [fj(x) for x in Policy.calc_returns(tuple(rs), g)]
+        out["returns_ndarray"] = [fj(x) for x in Policy.calc_returns(np.array(rs), np.float64(g))]
+    return out
 
 
 def build_pomdp(case):
@@ -301,13 +456,25 @@ def ag_json(ag):
 
 
 def one_pomdp_run(case):
-    import numpy as np
     pomdp = build_pomdp(case)
     pol = mk_ppolicy(case, pomdp)
-    guard = guard_absorbing(pomdp, int(case.get("step_guard", 400)))
+    out = pomdp_once(case, pomdp, pol, case)
+    if case.get("second") and "skipped" not in out:
+        out["second"] = pomdp_once(case, pomdp, pol, case["second"])      # same POMDP and policy objects again
+    try:
+        pol.evaluate_on(pomdp, n_simulations=1, max_steps=1)
+        out["evaluate_on"] = "returned"
+    except NotImplementedError:
+        out["evaluate_on"] = "NotImplementedError"
+    return out
+
+
+def pomdp_once(c0, pomdp, pol, case):
+    import numpy as np
+    guard = guard_absorbing(pomdp, int(c0.get("step_guard", 400)))
     rng, g = Scripted(case["stream"], "rng"), Scripted(case["gstream"], "global")
     ag0 = case.get("ag0")
-    if ag0 is not None and case["ctrl"]["kind"] == "sfsc":
+    if ag0 is not None and c0["ctrl"]["kind"] == "sfsc":
         ag0 = np.array([fl(x) for x in ag0], dtype=float)
     try:
         with GlobalPatch(g):
@@ -317,6 +484,8 @@ def one_pomdp_run(case):
         return {"skipped": "stream exhausted (%s)" % e}
     except StepGuard:
         return {"skipped": "step guard"}
+    finally:
+        pomdp._is_absorbing = guard[1]
     steps = []
     for st in traj[:-1]:
         steps.append([int(st.state), ag_json(st.agentstate), int(st.action), int(st.nextstate), fj(st.reward),
